@@ -195,7 +195,10 @@ func oracleC01(s *Sim, y *Sys) {
 		if h.HookDelay > 0 {
 			hl = "slow-hooks"
 		}
-		if cv, ok := h.CloseOp.Meta.(*closeView); ok && cv.allAcked {
+		// with an ack timeout that can expire within the run the stream gives up waiting for a result
+		// by design (Close does not wait for it either): the drain rules are stated for streams that wait
+		shortAckTO := h.Spec.AckTimeout > 0 && h.Spec.AckTimeout < time.Hour
+		if cv, ok := h.CloseOp.Meta.(*closeView); ok && cv.allAcked && !shortAckTO {
 			s.Stat("c01.all-acked-at-close")
 			rep := map[uint32][]message.ResultCode{}
 			for _, r := range cv.after {
@@ -233,7 +236,7 @@ func oracleC01(s *Sim, y *Sys) {
 		}
 		// (f') Close is a drain: unless the close timeout (or the caller's context) ended the wait, it
 		// does not return before the result of every chunk it cut has come back and been reported
-		if cv, ok := h.CloseOp.Meta.(*closeView); ok {
+		if cv, ok := h.CloseOp.Meta.(*closeView); ok && !shortAckTO {
 			cto := h.Spec.CloseTimeout
 			if cto == 0 {
 				cto = 10 * time.Second
@@ -259,6 +262,22 @@ func oracleC01(s *Sim, y *Sys) {
 				cnt[r.Seq]++
 			}
 			for q, sent := range h.B.ResultsSent {
+				if shortAckTO {
+					// only results that were handed to the client while the stream was open and not yet
+					// closing are demanded (late ones included: a result that arrives after its ack
+					// timeout is still a result)
+					delivered := false
+					for _, l := range y.allLinks() {
+						if a, ok := h.B.aliasOn[l.ID]; ok {
+							if at, ok := l.AckDeliveredAt[[2]uint32{a, q}]; ok && at < h.CloseOp.Invoke {
+								delivered = true
+							}
+						}
+					}
+					if !delivered {
+						continue
+					}
+				}
 				if len(sent) == 1 && cnt[q] != 1 {
 					s.Violate("C01.ack-hook-count", "end-of-run", "%s: the broker sent exactly one result for seq %d; by the end of the run the ack hook was told %d times (hooks take %v)", u, q, cnt[q], h.HookDelay)
 					break
